@@ -652,17 +652,18 @@ def validateRequired (env : Env) (ctx : Ctx) (schema : Val) (skvs : List (Key ×
     else pure []
   pure (e1 ++ e2)
 
-/-- one validator instance validating one mapping (`validate(doc, update, normalize=False)`);
-    `pre` = errors recorded by normalization on this same instance -/
+/-- one validator instance validating one mapping (`validate(doc, update, normalize=False)`
+    after `__init_processing`); `pre` = the instance's error list at that point (the errors
+    of normalization when it ran on this instance), `unreq0` = its `_unrequired_by_excludes` -/
 def validateMapping (env : Env) (t : Tables) (rec : Rec) (ctx : Ctx) (schema doc : Val) (upd : Bool)
-    (pre : List Err) : M (List Err) := do
+    (pre : List Err) (unreq0 : List Key) : M (List Err) := do
   let dkvs ← match doc with
     | .dict kvs => pure kvs
     | _ => raisePy "DocumentError" "__init_processing"
   let skvs ← match env.resolveSchema schema with
     | some (.dict kvs) => pure kvs
     | _ => raisePy "SchemaError" "__init_processing"
-  let s ← validateFields env t rec ctx schema skvs doc upd dkvs { errs := pre }
+  let s ← validateFields env t rec ctx schema skvs doc upd dkvs { errs := pre, unreq := unreq0 }
   let req ← if upd then pure [] else validateRequired env ctx schema skvs doc dkvs s.unreq
   pure (s.errs ++ req)
 
@@ -671,6 +672,6 @@ end V
 /-- `Validator(schema, **cfg).validate(doc, update=upd, normalize=False)` → `_errors` -/
 def validate0 (env : Env) (t : Tables) : Nat → Rec
   | 0, _, _, _, _ => .error .fuel
-  | n + 1, ctx, schema, doc, upd => V.validateMapping env t (validate0 env t n) ctx schema doc upd []
+  | n + 1, ctx, schema, doc, upd => V.validateMapping env t (validate0 env t n) ctx schema doc upd [] []
 
 end Cerberus
